@@ -5,7 +5,7 @@ import numpy as np
 from hypothesis import strategies as st
 
 from vf.harness import Job, describe_exc, exc_key
-from vf.daqmx import daqmx_file, expected_daqmx, scaler_chunk_values, truncated_expectation
+from vf.daqmx import daqmx_file, expected_daqmx, scaler_chunk_values, truncated_expectation, seg_entries
 from vf.encode import encode_file
 from vf.observe import compare_values, le_bytes
 from vf.model import split_path, tsize
@@ -32,8 +32,8 @@ ASSUMPTIONS = [
 
 def _nontrivial(fs):
     for seg in fs['segments']:
-        many = len([e for e in seg['entries'] if e.get('hdr') == 'daqmx']) >= 2 or len(seg['widths']) >= 2 or seg['nchunks'] >= 2
-        off = any(s['off'] != 0 for e in seg['entries'] if e.get('hdr') == 'daqmx' for s in e['scalers'])
+        many = len(seg_entries(seg)) >= 2 or len(seg['widths']) >= 2 or seg['nchunks'] >= 2
+        off = any(s['off'] != 0 for e in seg_entries(seg) for s in e['scalers'])
         if many and off:
             return True
     return False
@@ -143,10 +143,13 @@ def check(case, rec):
     rec.nontrivial(_nontrivial(fs))
     for seg in fs['segments']:
         rec.label('buffers=%d' % len(seg['widths']), 'chunks=%d' % seg['nchunks'], 'be' if seg['be'] else 'le')
-        for e in seg['entries']:
-            if e.get('hdr') != 'daqmx':
-                rec.label('relisted_without_data')
-                continue
+        if not seg.get('meta', True):
+            rec.label('metadata_less_continuation')
+        if seg.get('toc_extra'):
+            rec.label('interleaved_flag_set')
+        if any(e.get('hdr') != 'daqmx' for e in seg['entries']):
+            rec.label('relisted_without_data')
+        for e in seg_entries(seg):
             rec.label('kind=' + e['kind'], 'chan=' + ('raw' if e['chan_type'] == 'raw' else 'typed'),
                       'scalers=%d' % len(e['scalers']))
     ok, tf = rec.guard('eager:read', lambda: TdmsFile.read(io.BytesIO(data)))
@@ -173,7 +176,7 @@ def check(case, rec):
         vals = {}
         skip = set()
         for p, eo in exd.items():
-            ent = next((e for e in last['entries'] if e['path'] == p and e.get('hdr') == 'daqmx'), None)
+            ent = next((e for e in seg_entries(last) if e['path'] == p), None)
             if ent is None:
                 lens[p] = eo['len']
                 vals[p] = eo['scalers']
@@ -213,6 +216,6 @@ def cases(draw, **kw):
 
 def jobs(tier):
     if tier == 'quick':
-        return [Job('daqmx_files', 'hyp', lambda: cases(), n=3000)]
+        return [Job('daqmx_files', 'hyp', lambda: cases(), n=1800)]
     return [Job('daqmx_files', 'hyp', lambda: cases(), n=120000),
             Job('wider', 'hyp', lambda: cases(max_channels=6, max_len=12, max_chunks=4, max_width=32), n=20000)]
